@@ -149,7 +149,10 @@ def run(tier, seed, replay):
         if gc['tail']:
             text = text.replace('opt punch=', 'opt tail=%d:%d punch=' % gc['tail'], 1)
         cases.append({'cid': cid, 'g': gc['g'], 'ops': gc['ops'], 'text': text, 'plan': plan, 'snaps': snaps, 'descs': None, 'paths': gc['images'] or [],
-                      'kind': gc['kind'], 'tail': gc['tail']})
+                      'kind': gc['kind'], 'tail': gc['tail'],
+                      # until the library has extended it, the header of an 'l1' image lists too few L1 entries (what QEMU and
+                      # validb refuse): those snapshots are judged without that conjunct
+                      'valid_key': 'valid_sl1' if gc['kind'].startswith('l1') else 'valid'})
     d, obs, ver, maps = seqrun.run_batch('c12', cases)
     finds = []
     for c in cases:
